@@ -58,7 +58,7 @@ CLAIMED["C16"] = (
 CLAIMED["C18"] = (
     "runtime monitor over random event histories (interact/begin_drag/drag/end_drag/zoom/resize, 2D and 3D, canvas and view level): after every event the stated relations are recomputed in f64 from the public components (cursor model point fixed under zoom, grabbed point fixed under pan, rotate invariants, changed-flag direction as stated, matrix = translate*rotate*scale); witness shrinking by dropping events",
     "Held on every history/event observed (tens of millions of events per quick run). Exploration over histories.",
-    "Histories stop when the scale leaves [1e-4,1e4]; cursor events on zero-sized images skipped; only the stated direction of the changed flag is judged.",
+    "Histories stop when the scale leaves [1e-7,1e7]; cursor events on zero-sized images skipped; only the stated direction of the changed flag is judged.",
     "DESIGN.md 3/C18",
 )
 
